@@ -1,6 +1,8 @@
 import RsslVerif.Lemmas.MacroScope
 import RsslVerif.Lemmas.Include
 import RsslVerif.Lemmas.MacroSubst
+import RsslVerif.Lemmas.MacroApi
+import RsslVerif.Lemmas.SpecInert
 /-!
 # C12 — macro expansion and inclusion equal reference textual substitution
 
@@ -11,6 +13,7 @@ by the correspondence run on generated macro programs.
 namespace RsslVerif.Thm.C12
 open RsslVerif.Gen.MacroTables RsslVerif.Model.Macro RsslVerif.Model.Include RsslVerif.Spec.CPre
 open RsslVerif.Lemmas.MacroScope RsslVerif.Lemmas.Include RsslVerif.Lemmas.MacroTerm RsslVerif.Lemmas.MacroSubst
+open RsslVerif.Lemmas.MacroApi RsslVerif.Lemmas.SpecInert
 
 /-- Tie to the source: the shapes of `preprocess_command`, `apply_single_macro`, `preprocess_initial_file`,
 `Token::is_whitespace` and `compile()` the model was written against. -/
@@ -245,6 +248,144 @@ theorem api_duplicates_break_scoping :
     doUndef ms [⟨.ws, true⟩, ⟨.id "A", true⟩] =
       .error (.panic "preprocess/src/preprocess.rs: assertion `left == right` failed") := by
   refine ⟨by decide, rfl⟩
+
+/-! ## API-level defines -/
+
+/-- **api_defines_equal_file_defines** (partial). For API-level defines with pairwise distinct names whose values
+have no leading/trailing blank and no `##`, the macro list the code builds from the API list and the macro list it
+builds from the lines `#define NAME value` placed before the first line are the same up to the location bit of the
+body tokens -- and everything after that point is a function of the macro list.
+*Missing for the full statement:* the lemma that the location bit influences nothing but the `unlex` panic
+(`paste_unlocated_panics`), i.e. that a run on the API-built list either hits that panic or equals the run on the
+`#define`-built list; it is covered by the correspondence run only (every generated program is run with its leading
+definitions placed in the file, in the API list, and split).  The hypotheses cannot be dropped: see
+`api_defines_differ_from_file_defines`. -/
+theorem api_defines_equal_file_defines_partial (defs : List (String × List Tok))
+    (hnames : (defs.map (·.1)).Nodup) (hvalues : ∀ d ∈ defs, ValueOk d.2) :
+    ∃ ms, defineAll [] defs = .ok ms ∧ ms.map eraseLoc = (defs.map apiMacro).map eraseLoc := by
+  refine ⟨defs.map fileMacro, ?_, ?_⟩
+  · have := defineAll_spec [] defs hvalues (by simpa [names] using hnames)
+    simpa using this
+  · simp only [List.map_map]
+    apply List.map_congr_left
+    intro d _
+    exact (eraseLoc_api d).symm
+
+/-- non-vacuity: `-D A=P -D B=(1 + 2)` -/
+example : ∃ ms, defineAll [] [("A", [.id "P"]), ("B", [.lparen, .int "1", .ws, .punct "+", .ws, .int "2", .rparen])]
+    = .ok ms ∧ ms.map eraseLoc = ([("A", [Tok.id "P"]),
+      ("B", [.lparen, .int "1", .ws, .punct "+", .ws, .int "2", .rparen])].map apiMacro).map eraseLoc := by
+  apply api_defines_equal_file_defines_partial
+  · decide
+  · intro d hd
+    simp at hd
+    rcases hd with rfl | rfl <;> exact ⟨by decide, by decide⟩
+
+/-- The full statement is **false** on the pinned code, in three ways (each replayed on the real code,
+corpus/C12.txt): (1) a value containing `##` stays three ordinary tokens on the API route and becomes the paste
+operator on the `#define` route; (2) a name listed twice keeps both entries on the API route (the first wins) while a
+second `#define` replaces the first; (3) any `##` whose operand is a token of an API-level define panics. -/
+theorem api_defines_differ_from_file_defines :
+    (∃ ms, defineAll [] [("A", [.id "P", .hashhash, .id "Q"])] = .ok ms ∧
+      ms.map eraseLoc ≠ ([("A", [Tok.id "P", .hashhash, .id "Q"])].map apiMacro).map eraseLoc) ∧
+    (∃ ms, defineAll [] [("A", [.int "1"]), ("A", [.int "2"])] = .ok ms ∧
+      ms.length = 1 ∧ ([("A", [Tok.int "1"]), ("A", [.int "2"])].map apiMacro).length = 2) ∧
+    (∀ l r : PTok, l.located = false ∨ r.located = false →
+      pasteTokens l r = .error (.panic "preprocess/src/unlexer.rs: unlex does not support unlocated tokens")) := by
+  refine ⟨⟨_, rfl, by decide⟩, ⟨_, rfl, by decide, by decide⟩, paste_unlocated_panics⟩
+
+/-! ## Refinement of the reference -/
+
+/-- the reference reading of the macro list -/
+def specTable (env : List Entry) : List SMacro := env.map (fun e => ofMacro e.m)
+
+theorem find_specTable (pre post : List Entry) (m : Macro) (hpre : ∀ e ∈ pre, e.m.name ≠ m.name) :
+    find (specTable (pre ++ ⟨m, false⟩ :: post)) m.name = some (ofMacro m) := by
+  induction pre with
+  | nil => simp [specTable, find, ofMacro]
+  | cons e es ih =>
+    have he : e.m.name ≠ m.name := hpre e (by simp)
+    have := ih (fun x hx => hpre x (by simp [hx]))
+    have hb : ((ofMacro e.m).name == m.name) = false := by simpa [ofMacro] using he
+    simp only [specTable, find, List.cons_append, List.map_cons, List.find?_cons, hb] at this ⊢
+    exact this
+
+theorem sinert_of_inert (env : List Entry) (ts : List PTok) (hs : List String) (h : Inert env ts) :
+    SInert (specTable env) ((ppTokens ts).map fun t => ⟨t, hs⟩) := by
+  intro t ht
+  simp only [ppTokens, List.mem_map, List.mem_filter] at ht
+  obtain ⟨k, ⟨p, ⟨hp, _⟩, rfl⟩, rfl⟩ := ht
+  have := h p hp
+  unfold InertTok at this
+  unfold SInertTok
+  simp only
+  split
+  · rename_i n hn
+    simp only [hn] at this
+    simp only [find, specTable, List.find?_eq_none, List.mem_map, beq_iff_eq]
+    rintro x ⟨e, he, rfl⟩
+    simpa [ofMacro] using this e he
+  · trivial
+
+theorem ppTokens_append (a b : List PTok) : ppTokens (a ++ b) = ppTokens a ++ ppTokens b := by
+  simp [ppTokens]
+
+/-- **expand_refines_spec_partial.** The model's expansion equals the reference algorithm (`Spec.CPre.expand`,
+Prosser's hide-set algorithm, for some fuel) on the invocation of an object-like macro whose replacement list, like
+the surrounding text, contains no macro name and no `##`: both yield the surrounding tokens with the name replaced
+by the replacement list (white space aside, which is not a token for the reference).
+*Missing for the full rescanning equivalence `applyLoop = expand`:* (1) replacement lists and arguments that contain
+further invocations (needs the invariant relating the set of disabled entries to the hide sets of the tokens being
+rescanned; by `argument-repainted` above the equivalence is in fact false when an argument's expansion leaves a
+painted name), (2) function-like macros on the reference side (`function_like_is_substitution` is proved for the
+model only), (3) `##` (false for empty arguments: `empty-argument-next-to-paste`).  These are covered by the
+correspondence run against the harness's implementation of the same reference algorithm. -/
+theorem expand_refines_spec_partial (pre post : List Entry) (m : Macro) (before after : List PTok) (b : Bool)
+    (hpre : ∀ e ∈ pre, e.m.name ≠ m.name) (hobj : m.isFunction = false)
+    (hnoarg : ∀ t ∈ m.body, ∀ i, t.tok ≠ .arg i) (hnohash : ∀ t ∈ m.body, t.tok ≠ .hashhash)
+    (hbody : Inert (pre ++ ⟨m, false⟩ :: post) m.body)
+    (hbefore : Inert (pre ++ ⟨m, false⟩ :: post) before)
+    (hafter : Inert (pre ++ ⟨m, false⟩ :: post) after) :
+    ∃ out fuel r,
+      applyLoop (pre ++ ⟨m, false⟩ :: post) (before ++ ⟨.id m.name, b⟩ :: after) SearchPos.start = .ok out ∧
+      expand (specTable (pre ++ ⟨m, false⟩ :: post)) fuel
+        (plain (ppTokens (before ++ ⟨.id m.name, b⟩ :: after))) = .ok r ∧
+      r.map (·.tok) = ppTokens out := by
+  have hmodel := object_like_is_substitution pre post m before after b hpre hobj hnoarg hbody hbefore hafter
+  -- the reference body is the model body without white space
+  have hsb : (ofMacro m).body = ppTokens m.body := by
+    simp only [ofMacro, ppTokens, List.map_map]
+    apply List.map_congr_left
+    intro t ht
+    have htm : t ∈ m.body := (List.mem_filter.mp ht).1
+    simp only [Function.comp]
+    unfold specBodyTok
+    split
+    · rename_i i hi; exact absurd hi (hnoarg t htm i)
+    · rename_i hc
+      have := hbody t htm
+      simp [InertTok, hc] at this
+    · rfl
+  have hnh : Tok.hashhash ∉ (ofMacro m).body := by
+    rw [hsb]
+    simp only [ppTokens, List.mem_map, List.mem_filter, not_exists, not_and]
+    intro t ⟨ht, _⟩ heq
+    exact hnohash t ht heq
+  obtain ⟨fuel, hfuel⟩ := expand_object (specTable (pre ++ ⟨m, false⟩ :: post)) (ofMacro m)
+    (plain (ppTokens before)) (plain (ppTokens after))
+    (by simpa [ofMacro] using find_specTable pre post m hpre)
+    (by simp [ofMacro, hobj]) hnh
+    (sinert_of_inert _ before [] hbefore) (sinert_of_inert _ after [] hafter)
+    (fun hs => by rw [hsb]; exact sinert_of_inert _ m.body hs hbody)
+  refine ⟨_, fuel, plain (ppTokens before) ++
+    (ofMacro m).body.map (fun t => ⟨t, [(ofMacro m).name]⟩) ++ plain (ppTokens after), hmodel, ?_, ?_⟩
+  · have hpp : plain (ppTokens (before ++ ⟨.id m.name, b⟩ :: after)) =
+        plain (ppTokens before) ++ ⟨.id (ofMacro m).name, []⟩ :: plain (ppTokens after) := by
+      simp [plain, ppTokens, ofMacro, Tok.isWhitespace]
+    rw [hpp]
+    exact hfuel
+  · simp only [List.map_append, List.map_map, plain, ppTokens_append, hsb]
+    simp [Function.comp_def]
 
 /-! ## Inclusion -/
 
